@@ -13,7 +13,7 @@ from .shape import Shape
 
 
 class Tok:
-    __slots__ = ('it', 'el', 'subject', 'shape', 'consumed', 'peeked', 'present')
+    __slots__ = ('it', 'el', 'subject', 'shape', 'consumed', 'peeked', 'present', 'first')
 
     def __init__(self, it, el):
         self.it, self.el = it, el
@@ -22,6 +22,7 @@ class Tok:
         self.consumed = False
         self.peeked = False
         self.present = None      # 'pos' | 'neg' | None  (iterator had an element)
+        self.first = -1          # index of the first event of the segment that touches it (-1: carried in from before the segment)
 
 
 class Step:
@@ -111,9 +112,13 @@ class ParserAnalysis:
     def step_of(self, s):
         e = self.e
         st = Step(s)
-        for ev in s.events:
+        st.store_idx, st.subcall_idx = [], []
+        for i, ev in enumerate(s.events):
             if ev[0] in ('peek', 'next') and self.is_token_iter(ev[1]):
+                known = any(t.it == ev[1] and t.el == ev[2] for t in st.tokens)
                 t = st.tok(ev[1], ev[2])
+                if not known:
+                    t.first = i
                 if ev[0] == 'peek':
                     t.peeked = True
                 else:
@@ -128,7 +133,7 @@ class ParserAnalysis:
         for t in st.tokens:
             t.shape = s.shapes.get(t.subject)
         # stores
-        for ev in s.events:
+        for evi, ev in enumerate(s.events):
             val = None
             sink = None
             if ev[0] in ('store', 'lstore'):
@@ -154,8 +159,9 @@ class ParserAnalysis:
                         if inner and sink is not None and len(sink) == 3:
                             sink = (sink[0], sink[1], tuple(sink[2]) + tuple(inner))
             st.stores.append((sink, val, tok, xf, ev[3] if len(ev) > 3 else None))
+            st.store_idx.append(evi)
         # sub-parser calls with the iterator
-        for ev in s.events:
+        for evi, ev in enumerate(s.events):
             if ev[0] == 'call' and ev[1] in self.prog.bodies and ev[2]:
                 try:
                     it = models.iter_id(e, s.state, ev[2][0])
@@ -163,6 +169,7 @@ class ParserAnalysis:
                     it = None
                 if it is not None and self.is_token_iter(it):
                     st.subcalls.append((ev[1], ev, None, ev[3]))
+                    st.subcall_idx.append(evi)
         # end
         if s.kind == 'loop':
             st.end = ('head', s.dst)
